@@ -348,10 +348,19 @@ Definition agree (c : case) : bool :=
 Definition valid_info (x : info) : bool :=
   (0 <=? cap x) && (cap x <=? max_int) && (0 <=? cnt x) && (cnt x <=? max_int) &&
   f_finite (usage x) && f_finite (rate x).
+(* the domain on which no int64 operation of the code can overflow
+   (Strategy/ProofsW.v: there the int64 twin equals this model) *)
+Definition int64_domain (s : strategy) (need limit : Z) (infos : list info) : bool :=
+  (0 <? need) && (need <=? max_int) && (0 <=? limit) && (limit <=? max_int) &&
+  forallb (fun x => (0 <=? cap x) && (cap x <=? max_int) && (0 <=? cnt x) && (cnt x + need <=? max_int)) infos &&
+  (* FILL accumulates toDeploy over the selected nodes *)
+  (negb (strategy_eqb s Fill) || (need * Z.of_nat (length infos) <=? max_int)).
+
 Definition valid_case (c : case) : bool :=
   nodupb (names (c_infos c)) && forallb valid_info (c_infos c) &&
   (0 <? c_need c) && (c_need c <=? max_int) && (0 <=? c_limit c) && (c_limit c <=? max_int) &&
-  negb (strategy_eqb (c_strat c) Other).
+  negb (strategy_eqb (c_strat c) Other) &&
+  int64_domain (c_strat c) (c_need c) (c_limit c) (c_infos c).
 
 Definition sumZ (l : list Z) : Z := fold_right Z.add 0 l.
 Definition satsum (l : list Z) : Z := fold_left satadd l 0.
